@@ -132,3 +132,56 @@ package disk
 //@   call writeAndCloseFile#* asserts[C01] declared: arg2 == r && arg3 == kind && arg4 == hash && arg5 == size && fileName(ref(arg6)) == tmpName && tmpOpen == old(tmpOpen) + 1
 //@   call commit#* asserts[C01,C04,C08] committed: arg1 == lookupKey(kind, hash) && arg3 == tmpName && arg4 == size && arg5 == size && arg7 == tmpRandom
 //@   call Put#* asserts[C12] writethrough: arg2 == kind && arg3 == hash && arg4 == size
+
+// ---- GetValidatedActionResult (C06): every blob the ActionResult refers to is handed to the fail-fast presence check
+
+//@ pred fileDig(f) = #remoteexecution.OutputFile.Digest[f]
+//@ pred fileInline(f) = #remoteexecution.OutputFile.Contents.len[f] != 0
+//@ pred nodeDig(n) = #remoteexecution.FileNode.Digest[n]
+// every output file of ar without inline contents has its digest in the slice p
+//@ pred filesCovered(ar, p, n) = forall k Int :: (lo(ar.OutputFiles) <= k && k < lo(ar.OutputFiles) + n && !fileInline(elems(ar.OutputFiles)[k])) ==> inSlice(p, fileDig(elems(ar.OutputFiles)[k]))
+// the first n file nodes of directory d that carry a digest have it in p
+//@ pred nodesCovered(d, p, n) = forall m Int :: (lo(d.Files) <= m && m < lo(d.Files) + n && nodeDig(elems(d.Files)[m]) != 0) ==> inSlice(p, nodeDig(elems(d.Files)[m]))
+
+//@ func (c *diskCache) GetValidatedActionResult(ctx context.Context, hash string) (*pb.ActionResult, []byte, error)
+//@   serves C06 C11 C14
+//@   requires wfCache(c) && !muHeld && held >= 0 && ctx != nil && c.accessLogger != nil
+//@   modifies lruState(c.lru), held, resN, hitN, hitSize, adopted, tmpOpen, tmpName, tmpRandom, tfc.idum, visited
+//@   ensures[C07] unlocked: !muHeld
+//@   ensures[C03] noleak: held == old(held)
+//@   ensures[C11] validated: result0 != nil ==> result2 == nil
+//@   assume protobuf-repeated-nonnil: forall d Int, k Int :: (lo(ptr(d, "remoteexecution.Directory").Files) <= k && k < hi(ptr(d, "remoteexecution.Directory").Files)) ==> elems(ptr(d, "remoteexecution.Directory").Files)[k] != 0
+//@   ensures[C06] misses: result2 != nil ==> (result0 == nil && result1 == nil)
+//@   call findMissingCasBlobsInternal#* asserts[C06] failfast: arg3
+//@   call findMissingCasBlobsInternal#* asserts[C06] files: filesCovered(result, arg2, len(result.OutputFiles))
+//@   call findMissingCasBlobsInternal#* asserts[C06] stdio: (result.StdoutDigest != nil ==> inSlice(arg2, ref(result.StdoutDigest))) && (result.StderrDigest != nil ==> inSlice(arg2, ref(result.StderrDigest)))
+//@   call Get#1 asserts[C06] treeblob: arg2 == 1 && arg3 == d.TreeDigest.Hash && arg4 == d.TreeDigest.SizeBytes && arg5 == 0
+//@   call ActionResult#* asserts[C11] validates: arg0 == result
+//@   loop 0 invariant[C06] files: filesCovered(result, pendingValidations, rangeindex + 1)
+//@   loop 0 invariant fresh: !old(allocated(arr(pendingValidations)))
+//@   loop 0 invariant nn: forall k Int :: (lo(pendingValidations) <= k && k < hi(pendingValidations)) ==> elems(pendingValidations)[k] != 0
+//@   loop 0 modifies elems(pendingValidations)
+//@   loop 1 invariant[C06] files: filesCovered(result, pendingValidations, len(result.OutputFiles))
+//@   loop 1 invariant frame: !muHeld && held == old(held)
+//@   loop 1 modifies lruState(c.lru), held, resN, hitN, hitSize, adopted, tmpOpen, tmpName, tmpRandom, tfc.idum, elems(pendingValidations)
+//@   loop 1 invariant fresh: !old(allocated(arr(pendingValidations)))
+//@   loop 1 invariant nn: forall k Int :: (lo(pendingValidations) <= k && k < hi(pendingValidations)) ==> elems(pendingValidations)[k] != 0
+//@   loop 2 invariant[C06] files: filesCovered(result, pendingValidations, len(result.OutputFiles))
+//@   loop 2 invariant[C06] root: tree.Root != nil ==> nodesCovered(tree.Root, pendingValidations, rangeindex + 1)
+//@   loop 2 invariant fresh: !old(allocated(arr(pendingValidations)))
+//@   loop 2 invariant sameorfresh: arr(pendingValidations) == arr(pendingValidations$1) || !allocatedAt(1, arr(pendingValidations))
+//@   loop 2 invariant nn: forall k Int :: (lo(pendingValidations) <= k && k < hi(pendingValidations)) ==> elems(pendingValidations)[k] != 0
+//@   loop 2 modifies elems(pendingValidations)
+//@   loop 3 invariant[C06] files: filesCovered(result, pendingValidations, len(result.OutputFiles))
+//@   loop 3 invariant[C06] root: tree.Root != nil ==> nodesCovered(tree.Root, pendingValidations, len(tree.Root.Files))
+//@   loop 3 invariant fresh: !old(allocated(arr(pendingValidations)))
+//@   loop 3 invariant sameorfresh: arr(pendingValidations) == arr(pendingValidations$1) || !allocatedAt(1, arr(pendingValidations))
+//@   loop 3 invariant nn: forall k Int :: (lo(pendingValidations) <= k && k < hi(pendingValidations)) ==> elems(pendingValidations)[k] != 0
+//@   loop 3 modifies elems(pendingValidations)
+//@   loop 4 invariant[C06] files: filesCovered(result, pendingValidations, len(result.OutputFiles))
+//@   loop 4 invariant[C06] root: tree.Root != nil ==> nodesCovered(tree.Root, pendingValidations, len(tree.Root.Files))
+//@   loop 4 invariant[C06] child: child != nil ==> nodesCovered(child, pendingValidations, rangeindex + 1)
+//@   loop 4 invariant fresh: !old(allocated(arr(pendingValidations)))
+//@   loop 4 invariant sameorfresh: arr(pendingValidations) == arr(pendingValidations$1) || !allocatedAt(1, arr(pendingValidations))
+//@   loop 4 invariant nn: forall k Int :: (lo(pendingValidations) <= k && k < hi(pendingValidations)) ==> elems(pendingValidations)[k] != 0
+//@   loop 4 modifies elems(pendingValidations)
